@@ -43,6 +43,28 @@ Theorem C38_ultimate_only_when_shallow_backend :
     c_valid k <> Some CvFULL /\ c_scope k <> Some ScNONE /\ c_scope k <> Some ScCSE /\ c_use_cache k = true /\ c_prov k = true.
 Proof. exact subrun_ultimate_only_when_shallow_backend. Qed.
 
+(** a run started with cache=False replays the subrun job by CSE only -- exactly what it does for every
+    directly evaluated job -- whatever cache options the caller forwards *)
+Theorem C38_cache_false_is_cse_only :
+  forall k ans v h ct tr,
+    c_use_cache k = false ->
+    get_cache shipped_check_cache shipped_getcache (root_task_jobopts shipped_subrun_opts k) ans = (GHit v h ct, tr) ->
+    ct = CSE.
+Proof. exact subrun_cache_false_is_cse_only. Qed.
+
+Theorem C38_direct_cache_false_is_cse_only :
+  forall ans v h ct tr,
+    get_cache shipped_check_cache shipped_getcache (direct_jobopts false) ans = (GHit v h ct, tr) -> ct = CSE.
+Proof. exact direct_cache_false_is_cse_only. Qed.
+
+(** the variant that installs the cache=False override only for tasks *defined* with backend scope is refuted:
+    _subrun_root_task is defined with CSE scope and called with BACKEND scope *)
+Theorem C38_guarded_downgrade_refuted :
+  exists k ans v h tr,
+    c_use_cache k = false /\
+    get_cache shipped_check_cache shipped_getcache (root_task_jobopts guarded_subrun_opts k) ans = (GHit v h ULTIMATE, tr).
+Proof. exact guarded_downgrade_refuted. Qed.
+
 (** the translated check_cache program equals its closed form, and the procedure is total *)
 Theorem C38_check_cache_closed_form :
   forall scope cv oal ans, run_cc shipped_check_cache scope cv oal ans = cc_spec scope cv oal ans.
@@ -86,6 +108,14 @@ Theorem C38_root_key_separates_modes :
     root_key shipped_config_args a = root_key shipped_config_args b ->
     a AExpr = b AExpr /\ a ANewExecution = b ANewExecution /\ a AExportOptions = b AExportOptions.
 Proof. exact root_key_separates_modes. Qed.
+
+(** a top-level expression that is not wrapped in redun.root_task creates exactly one job under the
+    (stand-in) parent: args, kwargs, default args, task options and call-time options are all concrete *)
+Theorem C38_unwrapped_root_is_single_job :
+  forall is_task is_sched lazy,
+    needs_root shipped_root_parts is_task is_sched lazy = false ->
+    is_task = true /\ is_sched = false /\ top_jobs_unwrapped lazy = 1.
+Proof. exact unwrapped_root_is_single_job. Qed.
 
 (** (b) Job rows *)
 Theorem C38_extend_jobs_same_execution :
@@ -140,6 +170,9 @@ Proof. repeat split. Qed.
 Print Assumptions C38_subrun_no_single_reduction.
 Print Assumptions C38_no_single_when_excluded.
 Print Assumptions C38_ultimate_only_when_shallow_backend.
+Print Assumptions C38_cache_false_is_cse_only.
+Print Assumptions C38_direct_cache_false_is_cse_only.
+Print Assumptions C38_guarded_downgrade_refuted.
 Print Assumptions C38_check_cache_closed_form.
 Print Assumptions C38_get_cache_total.
 Print Assumptions C38_subrun_eq_direct.
@@ -147,6 +180,7 @@ Print Assumptions C38_replayed_dict_eq_direct.
 Print Assumptions C38_then_never_silent.
 Print Assumptions C38_forwarded_context_is_callers.
 Print Assumptions C38_root_key_separates_modes.
+Print Assumptions C38_unwrapped_root_is_single_job.
 Print Assumptions C38_extend_jobs_same_execution.
 Print Assumptions C38_extend_jobs_under_caller.
 Print Assumptions C38_extend_root_is_child_of_caller.
